@@ -125,8 +125,9 @@ def check_props(module, timeout=600):
         elif line.startswith("Axioms:"):
             cur = []; blocks.append(cur)
         elif cur is not None:
-            m = re.match(r"^(\S+)\s*:", line)
-            if m and not line.startswith(" "):
+            # an axiom entry starts in column 0 ("name : type" or "name" with the type on the next lines)
+            m = re.match(r"^([^\s:]+)", line)
+            if m and not line[0].isspace():
                 cur.append(m.group(1))
     if len(blocks) != len(printed):
         raise CoqError(f"{module}: expected {len(printed)} Print Assumptions blocks, got {len(blocks)}:\n" + r.stdout[-2000:])
